@@ -92,6 +92,7 @@ def run(ctx):
     ctx.assume("Taylor's theorem for 'H is the derivative of the residual'", "|pitch| <= 85 deg")
 
     ctx.guard(_absent, ctx, py)
+    ctx.guard(_history, ctx, py)
 
     for kind in ("Position", "NedVelocity", "BodyVelocity"):
         for wa in (True, False):
@@ -103,23 +104,96 @@ def run(ctx):
 
 # -----------------------------------------------------------------------------------------------
 def _absent(ctx, py):
-    """`None` iff the time is absent: structural path check + native witness."""
+    """`None` iff the time is absent.  The real compute_matrices runs on a table stand-in whose membership test
+    (`time in data.index`) is an uninterpreted decision and whose row lookup (`data.loc[time, ...]`) is only defined for a
+    time the path has found present: on every path, absent => None, present => a (z, H, R) triple, and no row is read
+    at a time whose presence was not established.  Plus native witnesses of both branches (large stamps included)."""
+    from pvx.sym import explore, decide
     M = py.measurements
+    COLS_OF = dict(Position=["lat", "lon", "alt"], NedVelocity=["VN", "VE", "VD"], BodyVelocity=["VX", "VY", "VZ"])
+    tq = sp.Symbol("t_query", real=True)
+    present_f = sp.Function("stamp_present")
     for cls in (M.Position, M.NedVelocity, M.BodyVelocity):
-        src = textwrap.dedent(inspect.getsource(cls.compute_matrices))
-        fn = ast.parse(src).body[0]
-        first = fn.body[0]
-        guard = (isinstance(first, ast.If) and ast.unparse(first.test) == "time not in self.data.index"
-                 and len(first.body) == 1 and isinstance(first.body[0], ast.Return)
-                 and isinstance(first.body[0].value, ast.Constant) and first.body[0].value.value is None and not first.orelse)
-        rets = [n for n in ast.walk(fn) if isinstance(n, ast.Return)]
-        others = [n for n in rets if n is not (first.body[0] if guard else None)]
-        tuples = all(isinstance(n.value, ast.Tuple) and len(n.value.elts) == 3 for n in others) and len(others) >= 1
-        ends_with_return = isinstance(fn.body[-1], ast.Return)
-        ok = guard and tuples and ends_with_return
+        t0 = time.time()
+        cols = COLS_OF[cls.__name__]
+
+        def scenario():
+            log = dict(asked=[], reads=[], unknown=[])
+
+            def key_of(t):
+                return sp.sympify(t.e if hasattr(t, "e") else t)
+
+            class Index:
+                def __contains__(self_, t):
+                    k = key_of(t)
+                    d = decide(sp.Eq(present_f(k), 1))
+                    log["asked"].append((k, d))
+                    return d
+
+                def __getattr__(self_, name):
+                    log["unknown"].append("data.index.%s" % name)
+                    raise AttributeError(name)
+
+            class Loc:
+                def __getitem__(self_, k):
+                    t, want = (k[0], k[1]) if isinstance(k, tuple) else (k, cols)
+                    kk = key_of(t)
+                    log["reads"].append((kk, any(a == kk and d for a, d in log["asked"])))
+                    want = [want] if isinstance(want, str) else list(want)
+                    return pd.Series([RSym(sp.Symbol("m_%s" % c, real=True)) for c in want], index=want, dtype=object)
+
+            class Table:
+                index = Index()
+                loc = Loc()
+                columns = pd.Index(cols)
+
+                def __getitem__(self_, k):          # column selection in the constructor: the same table
+                    if isinstance(k, list) and all(c in cols for c in k):
+                        return self_
+                    log["unknown"].append("data[%r]" % (k,))
+                    raise AttributeError("data[%r]" % (k,))
+
+                def __getattr__(self_, name):
+                    log["unknown"].append("data.%s" % name)
+                    raise AttributeError(name)
+            with rdomain(py):
+                v = {s_.name: RSym(s_) for s_ in ST}
+                pva = make_pva(v)
+                em = py.error_model.InsErrorModel(True)
+                m = cls(Table(), RSym(sp.Symbol("sd", positive=True))) if cls is M.BodyVelocity else cls(Table(), RSym(sp.Symbol("sd", positive=True)), None)
+                try:
+                    res = m.compute_matrices(RSym(tq), pva, em)
+                except AttributeError as exc:
+                    return dict(log=log, error=repr(exc))
+            return dict(log=log, none=res is None, triple=isinstance(res, tuple) and len(res) == 3)
+        bad = []
+        engine = None
+        try:
+            runs = explore(scenario, max_paths=16, on_budget="stop")
+        except Exception as exc:          # the table is used through an interface the stand-in does not offer
+            runs = []
+            engine = repr(exc)[:300]
+        seen_none = seen_triple = False
+        for pa, r in runs:
+            if "error" in r:
+                bad.append("table used through an interface outside the contract: %s %s" % (r["error"], r["log"]["unknown"]))
+                continue
+            asked = [d for k, d in r["log"]["asked"] if k == tq]
+            if not asked:
+                bad.append("a path never asks whether the queried time is in the table")
+                continue
+            if any(not known for _, known in r["log"]["reads"]):
+                bad.append("a row is read at a time the path has not found present")
+            if not all(asked) and not r["none"]:
+                bad.append("time absent but the result is not None")
+            if all(asked) and not r["triple"]:
+                bad.append("time present but the result is not a (z, H, R) triple")
+            seen_none = seen_none or r["none"]
+            seen_triple = seen_triple or r["triple"]
+        if engine is None and not (seen_none and seen_triple):
+            bad.append("both outcomes must be reachable (None seen: %s, triple seen: %s)" % (seen_none, seen_triple))
         # native witnesses of both branches
-        data = pd.DataFrame(np.ones((2, 3)), index=[1.0, 2.0],
-                            columns=dict(Position=["lat", "lon", "alt"], NedVelocity=["VN", "VE", "VD"], BodyVelocity=["VX", "VY", "VZ"])[cls.__name__])
+        data = pd.DataFrame(np.ones((2, 3)), index=[1.0, 2.0], columns=cols)
         m = cls(data, 1.0)
         pva = pd.Series([50.0, 30.0, 10.0, 1.0, 2.0, 0.1, 1.0, 2.0, 3.0], index=NAMES)
         em = py.error_model.InsErrorModel()
@@ -129,11 +203,40 @@ def _absent(ctx, py):
         big = cls(pd.DataFrame(np.ones((3, 3)), index=[345600.0, 345601.0, 345602.0], columns=data.columns), 1.0)
         w_abs += [big.compute_matrices(t, pva, em) is None for t in (345600.5, 345601.0001, 345599.0, 345602.9)]
         w_pre += [big.compute_matrices(t, pva, em) is not None for t in (345600.0, 345602.0)]
-        ok = ok and all(w_abs) and all(w_pre)
-        ctx.ob("C06.%s.absent" % cls.__name__, "c", ok, "ast-path-check+native-witness", 0.0,
-               "single `return None` guarded by `time not in self.data.index` at entry; every other return is a 3-tuple",
-               cex=None if ok else dict(guard=guard, tuples=tuples, absent=w_abs, present=w_pre),
-               native=None if ok else dict(reproduced=not (all(w_abs) and all(w_pre))))
+        ok = not bad and all(w_abs) and all(w_pre)
+        if ok and engine is not None:
+            ok = None                      # undecided: the symbolic part could not run and the witnesses found nothing
+            bad.append("not executable on the table stand-in: " + engine)
+        ctx.ob("C06.%s.absent" % cls.__name__, "c", ok, "symbolic-execution(membership as an uninterpreted decision)+native-witness", time.time() - t0,
+               "%d paths: absent => None, present => (z, H, R), rows read only at a time found present" % len(runs) if ok
+               else ("; ".join(bad)[:500] or "native witnesses: absent times -> None %s, present times -> matrices %s" % (w_abs, w_pre)),
+               cex=None if ok else dict(paths=bad, absent=w_abs, present=w_pre),
+               native=None if ok else dict(reproduced=not (all(w_abs) and all(w_pre)), absent_times_return_None=w_abs, present_times_return_matrices=w_pre))
+
+
+def _history(ctx, py):
+    """The error model handed to compute_matrices is ONE object for every sensor of a filter run: (z, H, R) of a call must
+    not depend on which sensor / lever-arm configuration was evaluated on the same model before (ordered pairs of
+    configurations, every path, all cell values)."""
+    from pvx.claims import history_independent
+    cfgs = [("Position", True), ("Position", False), ("NedVelocity", True), ("NedVelocity", False), ("BodyVelocity", False)]
+    for wa in (True, False):
+        em = py.error_model.InsErrorModel(wa)
+        syms = ST + list(Mz) + [sd] + list(L) + list(Wr)
+
+        def make(kind, lever):
+            def code(v):
+                pva = _with_rates(make_pva(v), v, True)
+                m = _meas(py, kind, v, lever, _data_vals(kind, v))
+                z, H, R = m.compute_matrices(TIME, pva, em)
+                return [z, H, R]
+            return code
+        pairs = [(a, b) for a in cfgs for b in cfgs if a != b]
+        if ctx.tier == "quick":
+            pairs = [(a, b) for a, b in pairs if a[0] == b[0] or (a[1] and not b[1])]
+        for a, b in pairs:
+            history_independent(ctx, "C06.%s.%s%s.after.%s%s" % ("3d" if wa else "2d", b[0], ".lever" if b[1] else "", a[0], ".lever" if a[1] else ""),
+                                syms, make(*b), BOX, cos_nonneg=COSNN, py=py, before=make(*a), tol=1e-10)
 
 
 def _run_cm(py, kind, v, wa, lever, rates, pva=None):
